@@ -555,6 +555,7 @@ fn run(case: &Case, ctx: &mut Ctx) -> Option<Violation> {
     ctx.mutations = h.iter().filter(|o| !matches!(o.op, COp::Get(_) | COp::Contains(_))).count() as u32 + case.setup.len() as u32;
     ctx.needs_fault = true;
     ctx.faults = preempt_sites.len() as u32;
+    ctx.count_n("fault:preemption_at_hook_site", preempt_sites.len() as u64);
     ctx.count_n("sched_points", rr.points);
     ctx.count_n("context_switches_at_hook_sites", switches.len() as u64);
     for s in &preempt_sites {
@@ -777,9 +778,11 @@ fn run_container(case: &Case, ctx: &mut Ctx) -> Option<Violation> {
     ctx.mutations = h.iter().filter(|o| !matches!(o.op, COp::Get(_) | COp::Contains(_))).count() as u32 + case.setup.len() as u32;
     ctx.needs_fault = true;
     ctx.faults = preempt_sites.len() as u32;
+    ctx.count_n("fault:preemption_at_hook_site", preempt_sites.len() as u64);
     ctx.count_n("sched_points", rr.points);
     ctx.count_n("context_switches_at_hook_sites", switches);
     ctx.count_n("lock_waits", rr.lock_waits);
+    ctx.count_n("fault:lock_contention_while_holder_preempted", u64::from(rr.lock_waits > 0));
     if rr.lock_waits > 0 {
         ctx.reached("container_lock_contended");
     }
